@@ -10,13 +10,14 @@ import html
 from html.parser import HTMLParser
 
 import pyglove as pg
-from engine.chx import Assume, Violation, reach
+from engine.chx import Assume, Violation, reach, untraced, concretize
 
 PROPERTY = 'C20'
 LEVEL = 'model_checking'
 REACH_POINTS = ['render', 'render.baseline_same_structure']
 
-ALPHABET = ['<', '>', '&', '"', "'", '/', '!', '-', ']', 'a', 'b']
+# single metacharacters plus character references (data that already looks escaped must be escaped again)
+ALPHABET = ['<', '>', '&', '"', "'", '/', '!', '-', ']', 'a', 'b', '&lt;', '&#39;', '&amp']
 VOID = {'br', 'hr', 'img', 'input', 'meta', 'link'}
 
 
@@ -161,11 +162,11 @@ def _options(collapse, tip1, tip2, kstyle, flt, maxlen, uncollapse):
   return opts
 
 
-def h_render(params, k0, k1, kn, v0, v1, vn, o0, on, collapse, tip1, tip2, kstyle, flt, maxlen, uncollapse, fail_first=False):
+def h_render(params, k0, k1, kn, v0, v1, vn, o0, on, collapse, tip1, tip2, kstyle, flt, maxlen, uncollapse, fail_first=False, v2=0):
   shape = params['shape']
-  if not (1 <= kn <= 2 and 0 <= vn <= 2 and 1 <= on <= 1):
+  if not (1 <= kn <= 2 and 0 <= vn <= 3 and 1 <= on <= 1):
     raise Assume()
-  key, val, other = _mk_str((k0, k1), kn), _mk_str((v0, v1), vn), _mk_str((o0,), on)
+  key, val, other = _mk_str((k0, k1), kn), _mk_str((v0, v1, v2), vn), _mk_str((o0,), on)
   if shape == 'nested' and other == key:
     raise Assume()
   opts = _options(collapse, tip1, tip2, kstyle, flt, maxlen, uncollapse)
@@ -208,7 +209,8 @@ def h_render(params, k0, k1, kn, v0, v1, vn, o0, on, collapse, tip1, tip2, kstyl
     if kk not in text and not any(kk in (v or '') for _, _, v in tok.attr_values):
       return Violation(f'key_missing_from_output:{tag}', f'key={kk!r} opts={sorted(opts)}')
   for vv in vals:
-    if vv and vv not in text and 'exclude_keys' not in opts:
+    # a string leaf is shown either verbatim or as its Python literal (repr escapes quotes when both kinds occur)
+    if vv and vv not in text and repr(vv)[1:-1] not in text and 'exclude_keys' not in opts:
       return Violation(f'leaf_value_missing_from_output:{tag}', f'value={vv!r}')
   after = pg.to_json(x) if isinstance(x, pg.Symbolic) else repr(x)
   if after != before:
@@ -218,25 +220,53 @@ def h_render(params, k0, k1, kn, v0, v1, vn, o0, on, collapse, tip1, tip2, kstyl
 
 _ARGS = [('k0', 'int'), ('k1', 'int'), ('kn', 'int'), ('v0', 'int'), ('v1', 'int'), ('vn', 'int'), ('o0', 'int'), ('on', 'int'),
          ('collapse', 'int'), ('tip1', 'bool'), ('tip2', 'bool'), ('kstyle', 'int'), ('flt', 'int'), ('maxlen', 'int'),
-         ('uncollapse', 'bool'), ('fail_first', 'bool')]
+         ('uncollapse', 'bool'), ('fail_first', 'bool'), ('v2', 'int')]
 SHAPES = ['dict_kv', 'nested', 'list', 'object', 'plain_dict']
 
 
-def h_render_p(params, k0, k1, kn, v0, v1, vn, o0, on, collapse, tip1, tip2, kstyle, flt, maxlen, uncollapse, fail_first):
-  # shard-level cut: option sub-vector fixed by the shard, strings symbolic
-  if (collapse, kstyle) != (params['collapse'], params['kstyle']):
-    raise Assume()
-  if params.get('family') == 'strings':
-    # all characters symbolic, remaining options at their defaults
-    if not (tip1 and tip2) or flt != 0 or maxlen != 2 or uncollapse:
-      raise Assume()
-  elif params.get('family') == 'options':
-    # all option combinations, key/value from three nasty strings
-    if not ((k0, k1, kn) in ((0, 5, 2), (3, 1, 2), (8, 0, 1)) and (v0, v1, vn) in ((0, 7, 2), (2, 0, 1), (0, 0, 0)) and o0 == 0):
-      raise Assume()
-  if fail_first and params.get('family') != 'options':
-    raise Assume()
-  return h_render(params, k0, k1, kn, v0, v1, vn, o0, on, collapse, tip1, tip2, kstyle, flt, maxlen, uncollapse, fail_first)
+NASTY_KEYS = ((0, 5, 2), (3, 1, 2), (8, 0, 1))        # '</', '">', ']'
+NASTY_VALS = ((0, 7, 0, 2), (2, 0, 0, 1), (0, 0, 0, 0), (11, 0, 9, 3))    # '<-', '&', '', '&lt;<a'
+
+
+NASTY_PAIRS = ((0, 0), (1, 1), (2, 3), (0, 2))
+
+
+def h_render_p(params, k0, k1, kn, v0, v1, vn, o0, on, collapse, tip1, tip2, kstyle, flt, maxlen, uncollapse, fail_first, v2):
+  """Shard-level cut: (shape, collapse, key style) fixed by the shard. Every symbolic choice is a solver decision made
+  concrete by branching; rendering, tokenizing and the oracle run natively."""
+  fam = params['family']
+  A = range(len(ALPHABET))
+  collapse, kstyle = params['collapse'], params['kstyle']
+  if fam in ('key', 'val', 'val3', 'other'):
+    # one string fully symbolic over the alphabet, the others fixed nasty strings, remaining options at their defaults
+    tip1, tip2, flt, maxlen, uncollapse, fail_first = True, True, 0, 2, False, False
+    sk0, sk1, skn, sv0, sv1, sv2, svn, so0 = k0, k1, kn, v0, v1, v2, vn, o0      # the solver's variables
+    (k0, k1, kn), (v0, v1, v2, vn), o0 = NASTY_KEYS[0], NASTY_VALS[0], 2
+    if fam == 'key':
+      kn = concretize(skn, [1, 2])
+      k0 = concretize(sk0, A)
+      k1 = concretize(sk1, A) if kn == 2 else 0
+    elif fam == 'val':
+      vn = concretize(svn, [0, 1, 2])
+      v0 = concretize(sv0, A) if vn >= 1 else 0
+      v1 = concretize(sv1, A) if vn >= 2 else 0
+    elif fam == 'val3':
+      # three tokens, the first one a character reference or an opening bracket
+      vn = 3
+      v0 = concretize(sv0, [0, 2, 11, 12, 13])
+      v1, v2 = concretize(sv1, A), concretize(sv2, A)
+    else:
+      o0 = concretize(so0, A)
+  elif fam == 'options':
+    # all option combinations, key/value from nasty strings
+    ks, vs = NASTY_PAIRS[concretize(k0, range(len(NASTY_PAIRS)))]
+    (k0, k1, kn), (v0, v1, v2, vn), o0 = NASTY_KEYS[ks], NASTY_VALS[vs], 0
+    tip1, tip2, uncollapse, fail_first = bool(tip1), bool(tip2), bool(uncollapse), bool(fail_first)
+    flt, maxlen = concretize(flt, [0, 1, 2]), concretize(maxlen, [0, 1, 2])
+  else:
+    raise AssertionError(fam)
+  with untraced():
+    return h_render(params, k0, k1, kn, v0, v1, vn, o0, 1, collapse, tip1, tip2, kstyle, flt, maxlen, uncollapse, fail_first, v2)
 
 
 def shards(tier, seed):
@@ -245,21 +275,28 @@ def shards(tier, seed):
   for shape in SHAPES:
     for collapse in (0, 1, 2):
       for kstyle in (0, 1):
-        for family in ('strings', 'options'):
+        for family in ('key', 'val', 'val3', 'other', 'options'):
+          if family == 'val3' and quick and (collapse, kstyle) != (0, 0):
+            continue
+          if family == 'options' and quick and (collapse, kstyle) not in ((0, 0), (1, 1), (2, 0)):
+            continue
+          # expect_s: CPU seconds the shard needs to close (sizes the tier); budget_s: when it is given up as INCOMPLETE
+          expect = dict(key=20, val=20, other=3, val3=50, options=50)[family]
           out.append(dict(name=f'render:{shape}:c{collapse}:k{kstyle}:{family}', fn='h_render_p',
                           params=dict(shape=shape, collapse=collapse, kstyle=kstyle, family=family), args=_ARGS,
-                          budget_s=35 if quick else 900, per_path_s=30, format_stub=False))
+                          budget_s=120 if quick else 900, expect_s=expect, per_path_s=30, format_stub=False))
   return out
 
 
 META = dict(
-    rule='Shard = (value shape, collapse level, key style); symbolic: characters of one dict key (1-2 chars), one value '
-         '(0-2 chars) and a second string (1 char) over the metacharacter alphabet, tooltip bits, filter, max summary '
-         'length, uncollapse.',
+    rule='Shard = (value shape, collapse level, key style, family); families key / val / other: one string symbolic over the '
+         'token alphabet (key 1-2 tokens, value 0-2 tokens, val3: 3 tokens starting with a character reference or an opening '
+         'bracket), the other strings fixed nasty ones, default options; family options: every combination of tooltip bits, '
+         'key filter, max summary length, uncollapse, a failed earlier render, over 4 pairs of nasty key / value strings.',
     bounds=['alphabet %r' % ALPHABET, 'shapes: ' + ', '.join(SHAPES), 'collapse level None/0/1, key style summary/label, '
             'tooltips on/off, include/exclude keys, max_summary_len_for_str in {0,1,80}, uncollapse paths on/off'],
     stubs=['reference tokenizer = html.parser.HTMLParser of the standard library'],
-    outside_claim=['CSS/JS semantics, browser error recovery', 'strings longer than 2 characters', 'class and field names '
+    outside_claim=['CSS/JS semantics, browser error recovery', 'strings longer than 3 alphabet tokens, characters outside the alphabet', 'class and field names '
                    '(Python identifiers cannot contain metacharacters)', 'custom controls (tab, progress bar, label)'],
     assumptions=['"no data-introduced element/attribute" = same element and attribute-name sequence as the same value '
                  'rendered with harmless letters'],
